@@ -214,3 +214,64 @@ Section Ideal.
     | Some b => if verify_signature addr (H b) sig then VOk else VErrSignature
     end.
 End Ideal.
+
+(** * Stateless validation of decoded votes / proposals, signer selection, SigToPub rejection
+      (added for the ValidateBasic / MakeSigner / SigToPub families of the harness) *)
+
+(** [IsVoteTypeValid] *)
+Definition is_vote_type_valid (t : Z) : bool := (t =? prevote_type)%Z || (t =? precommit_type)%Z.
+
+(** [PartSetHeader.IsZero], [BlockID.IsZero] / [IsComplete] at the types level (hashes are [32]byte) *)
+Definition psh_is_zero (b : block_id) : bool := (b_total b =? 0) && all_zero (to_hash32 (b_phash b)).
+Definition bid_is_complete (b : block_id) : bool :=
+  negb (all_zero (to_hash32 (b_hash b))) && negb (psh_is_zero b).
+
+Inductive vb_result := VBOk | VBType | VBBlockID | VBParts | VBNoSig.
+
+(** [Vote.ValidateBasic] ([BlockID.ValidateBasic] cannot fail on a [32]byte hash) *)
+Definition vote_validate_basic (v : vote) (siglen : N) : vb_result :=
+  if negb (is_vote_type_valid (v_type v)) then VBType
+  else if negb (bid_is_zero (v_bid v)) && negb (bid_is_complete (v_bid v)) then VBBlockID
+  else if siglen =? 0 then VBNoSig
+  else VBOk.
+
+(** [Proposal.ValidateBasic] *)
+Definition proposal_validate_basic (p : proposal) (siglen : N) : vb_result :=
+  if negb (bid_is_complete (p_bid p)) then VBBlockID
+  else if max_block_parts_count <? b_total (p_bid p) then VBParts
+  else if siglen =? 0 then VBNoSig
+  else VBOk.
+
+(** [configs.isForked] *)
+Definition is_forked (fork head : option N) : bool :=
+  match fork, head with
+  | Some s, Some h => s <=? h
+  | _, _ => false
+  end.
+
+(** [NewChainIDSigner]: a nil chain id is chain id 0 *)
+Definition new_chain_id_signer (chain : option N) : signer :=
+  ChainIDSigner (match chain with Some c => c | None => 0 end).
+
+(** [MakeSigner] *)
+Definition make_signer (chain fork head : option N) : signer :=
+  if is_forked fork head then new_chain_id_signer chain else Homestead.
+
+(** [LatestSigner] *)
+Definition latest_signer (chain fork : option N) : signer :=
+  match chain, fork with
+  | Some _, Some _ => new_chain_id_signer chain
+  | _, _ => Homestead
+  end.
+
+(** [LatestSignerForChainID] *)
+Definition latest_signer_for_chain_id (chain : option N) : signer :=
+  match chain with None => Homestead | Some _ => new_chain_id_signer chain end.
+
+(** [crypto.SigToPub] returns an error before any curve arithmetic: wrong length, or r / s
+    outside [1, N-1] (fix 108de2e) *)
+Definition sig_to_pub_rejects (sig : bytes) : bool :=
+  negb (len sig =? signature_length) ||
+  (let r := be_val (firstn 32 sig) in
+   let s := be_val (firstn 32 (skipn 32 sig)) in
+   (r =? 0) || (s =? 0) || (secp256k1_n <=? r) || (secp256k1_n <=? s)).
